@@ -13,7 +13,7 @@ def _nontrivial(inp):
 CONFIG = dict(
     bin="c12",
     drv="drv_c12",
-    lean_modules=["MahfModel.Props.C12"],
+    lean_modules=["MahfModel.Props.C12", "MahfModel.Props.C12Hist"],
     namespaces=["MahfModel.Props.C12"],
     shrink_lists=["pop", "stack"],
     level="proof",
@@ -57,7 +57,10 @@ CONFIG.update(
                 "individuals at the first mu positions of the witness, and — counting over all n! legal witnesses — exactly "
                 "min(mu,n)*(n-1)! of them keep any given position, i.e. under a uniform shuffle every parent and every offspring "
                 "survives with the same probability min(mu,n)/n (random_replacement_uniform_survival); KeepBetterAtIndex is "
-                "position-wise with ties kept by the parent and Err on unequal sizes; the executable predicate used by the check is "
+                "position-wise with ties kept by the parent and Err on unequal sizes; for every finite history of replacement steps that all "
+                "return Ok (runOps_ok_conserves, Props/C12Hist.lean) the stack is lower by exactly the number of steps, everything below "
+                "the consumed populations is untouched and the individuals of the final stack are a sub-multiset of the initial ones; "
+                "a failing step ends the history (runOps_stops_at_first_failure); the executable predicate used by the check is "
                 "proved to hold of the model (model_satisfies_predicate) and to be blind to the order of MuPlusLambda's result. The "
                 "model is tied to /repo by running the real components (through new+execute and through from_params+replace) on "
                 "exhaustive small, seeded larger (up to ~600 individuals) and boundary-mu stacks and comparing with the compiled "
